@@ -216,7 +216,16 @@ func ruleBigDigits(p *Prog, r *Report) {
 				}
 			}
 		}
-		if !parses || len(lenCmps) == 0 {
+		// also the canonical form without any parse: strip zeros, compare lengths, then text
+		strips := false
+		for _, bo := range lenCmps {
+			lx, _ := lenArg(bo.X)
+			ly, _ := lenArg(bo.Y)
+			if zeroStripped(lx, fn) && zeroStripped(ly, fn) {
+				strips = true
+			}
+		}
+		if !(parses || strips) || len(lenCmps) == 0 {
 			continue
 		}
 		n++
